@@ -870,10 +870,10 @@ fn matching_pattern_to_document(
         *ending_associated_comments,
         |it| {
           if it.shorthand {
-            text_pstr(heap, it.field_name.name)
+            id_to_doc(heap, comment_store, &it.field_name)
           } else {
             Document::concat(vec![
-              (text_pstr(heap, it.field_name.name)),
+              id_to_doc(heap, comment_store, &it.field_name),
               Document::Text(" as "),
               matching_pattern_to_document(heap, comment_store, &it.pattern),
             ])
